@@ -359,6 +359,95 @@ def gen_copyout_history(rng):
         emit("%s 0 %d %d %d" % (rng.choice(["bcell", "bcell", "bspan"]), line, col, ln))
     emit("end")
 
+def gen_terminput_history(rng):
+    """the terminal's own bindings and input entry points (push_bytes, readable, wait_msec / wait_tv, check_timeout_msec,
+    emit_key / emit_mouse) with handlers on the terminal and on windows that drop windows, the root and the terminal itself,
+    lone ESC bytes resolved by the inter-byte timeout (clock advanced by `tick`) or by the next byte"""
+    L, C = rng.choice([(6, 12), (4, 8), (10, 20)])
+    has_fd = rng.random() < 0.8
+    emit("%s %d %d" % ("newin" if has_fd else "new", L, C))
+    nw = 1
+    for _ in range(rng.randint(0, 3)):
+        emit("win %d %d %d %d %d %d" % ((rng.randrange(nw),) + rect(rng) + (rng.choice([0, 0, 0, 8]),))); nw += 1
+    def wacts(n):
+        out = []
+        for _ in range(n):
+            r = rng.random(); w = rng.randrange(nw)
+            if r < 0.35: out.append("u%d" % w)
+            elif r < 0.50: out.append("c%d" % w)
+            elif r < 0.58: out.append("r%d" % w)
+            elif r < 0.70: out.append("%s%d" % (rng.choice("RFLB"), w))
+            elif r < 0.78: out.append("%s%d" % (rng.choice("hs"), w))
+            else: out.append("f")
+        return out
+    for _ in range(rng.randint(0, 2)):
+        ev = rng.choice(["key", "key", "mouse"]); ret = rng.choice([0, 0, 1])
+        acts = wacts(rng.randint(0, 2))
+        if ev == "mouse" and ret == 1: acts = [x for i, x in enumerate(acts) if x[0] != "u" or i == 0][:1] + [x for x in acts[1:] if x[0] != "u"]
+        emit(("bind %d %s %d %s" % (rng.randrange(nw), ev, ret, " ".join(acts))).strip())
+    ntb = 0; trefs = 1
+    quit_shape = rng.random() < 0.35
+    if quit_shape:
+        # the application quits from a key (or mouse) handler on the terminal: it drops its windows and the terminal there
+        if rng.random() < 0.3: emit("tref"); trefs += 1
+        acts = ["u%d" % w for w in (range(nw - 1, -1, -1) if rng.random() < 0.5 else range(nw))] if rng.random() < 0.8 else ["u0"]
+        acts = acts[:6] + ["t"] * trefs
+        if rng.random() < 0.25: rng.shuffle(acts)
+        emit("tbind %s %d %s" % (rng.choice(["key", "key", "key", "mouse"]), rng.choice([0, 1]), " ".join(acts))); ntb += 1
+    for _ in range(rng.randint(0, 2)):
+        acts = wacts(rng.randint(0, 2)) + [rng.choice(["t", "t", "T"]) for _ in range(rng.randint(0, 2))]
+        rng.shuffle(acts)
+        emit(("tbind %s %d %s" % (rng.choice(["key", "mouse"]), rng.choice([0, 0, 1]), " ".join(acts))).strip()); ntb += 1
+    pend = False
+    def toks():
+        nonlocal pend
+        out = []
+        n = rng.choice([0, 1, 1, 1, 2, 2, 3, 4])
+        if pend:
+            if n == 0 or rng.random() < 0.3: return out
+            out.append("a"); pend = False; n -= 1
+        for _ in range(n):
+            r = rng.random()
+            if r < 0.45: out.append(rng.choice(["a", "a", "A", "U"]))
+            else: out.append("%s%d,%d" % (rng.choice("PPDDR"), rng.randint(0, L - 1), rng.randint(0, C - 1)))
+        if rng.random() < (0.6 if quit_shape else 0.3): out.append("E"); pend = True
+        return out
+    for _ in range(rng.randint(4, 14)):
+        r = rng.random()
+        if pend and rng.random() < 0.4:
+            # an ESC is waiting: let the inter-byte timeout turn it into the key Escape through one of the entry points
+            q = rng.random()
+            if q < 0.45:
+                emit("tick %d" % rng.choice([50, 60, 1000])); emit("tcheck")
+            elif q < 0.8:
+                if rng.random() < 0.5: emit("tick %d" % rng.choice([20, 50, 70]))
+                emit(rng.choice(["twait", "twaitv"]))
+                if has_fd: pend = False
+            else: emit("tcheck")
+            continue
+        if r < 0.22: emit(("tpush " + " ".join(toks())).strip())
+        elif r < 0.34:
+            was = pend
+            emit(("tread " + " ".join(toks())).strip())
+            if not has_fd: pend = was              # skipped: nothing reaches libtermkey
+        elif r < 0.56:
+            was = pend
+            t = toks()
+            if not t: pend = False                 # select() finds nothing: timedout() resolves the ESC
+            if not has_fd: pend = was
+            emit(("%s %s" % (rng.choice(["twait", "twait", "twaitv"]), " ".join(t))).strip())
+        elif r < 0.66: emit("tcheck")
+        elif r < 0.76: emit("tick %d" % rng.choice([10, 30, 50, 50, 60, 1000]))
+        elif r < 0.80: emit("key")
+        elif r < 0.84: emit("mouse %d 1 %d %d" % (rng.choice([1, 2, 3]), rng.randint(0, L - 1), rng.randint(0, C - 1)))
+        elif r < 0.88: emit(rng.choice(["tunref", "tref", "tunref"]))
+        elif r < 0.92: emit("%s %d" % (rng.choice(["unref", "unref", "close", "ref"]), rng.randrange(nw)))
+        elif r < 0.95 and ntb: emit("tunbind %d" % rng.randint(3, 4 + ntb))
+        elif r < 0.97: emit("flush")
+        else:
+            emit("tbind key %d %s" % (rng.choice([0, 1]), rng.choice(["t", "u0 t", "T", "c0"]))); ntb += 1
+    emit("end")
+
 info = {}
 if a.tier == "exhaustive":
     # all orders of <= 5 lifecycle operations on root(0) > 1 > 2, window 3 a sibling of 1, one pen
@@ -391,7 +480,7 @@ if a.tier == "exhaustive":
     info.update({"exhaustive_bound": "all sequences of <=3 (and a seed-selected quarter of the length-4) operations over a 13-letter lifecycle alphabet on root>1>2, 3 sibling of 1, one pen, one self-unref key handler; each followed by flush and end; tickit_mockterm_get_display_text with every buffer length (short of the known exact-fill overflow) for every span of five fixed lines of multi-byte, double-width and combining cells", "histories": nh})
 else:
     scale = 1 if a.tier == "quick" else 5
-    fams = {"tree": 700, "handlers": 700, "foreign": 400, "objects": 400, "pens": 400, "copyout": 400}
+    fams = {"tree": 700, "handlers": 700, "foreign": 400, "objects": 400, "pens": 400, "copyout": 400, "terminput": 500}
     if a.families:
         fams = {k: v for k, v in fams.items() if k in a.families.split(",")}
     for fam, n in fams.items():
@@ -402,6 +491,7 @@ else:
             elif fam == "foreign": gen_tree_history(rng, True, True)
             elif fam == "objects": gen_objects_history(rng)
             elif fam == "pens": gen_pens_history(rng)
+            elif fam == "terminput": gen_terminput_history(rng)
             else: gen_copyout_history(rng)
             fam_count[fam] = fam_count.get(fam, 0) + 1
     info = {"histories": sum(fam_count.values()), "families": fam_count}
